@@ -269,8 +269,7 @@ def test_fastparquet_footer_is_idl_conformant(scratch):
     assert [p for p in view.problems if p.startswith("E-THRIFT")] == []
 
 
-@pytest.mark.xfail(strict=True, reason="with DATAPAGE_VERSION = 2 fastparquet's ColumnMetaData.encoding_stats list the "
-                                       "DATA_PAGE_V2 pages under page_type DATA_PAGE (0)")
+# (was a strict xfail until /repo commit 041247b named the page type DATA_PAGE_V2 in encoding_stats)
 def test_fastparquet_v2_encoding_stats(scratch, datapage_version):
     datapage_version(2)
     fn = os.path.join(scratch, "t.parquet")
@@ -279,8 +278,7 @@ def test_fastparquet_v2_encoding_stats(scratch, datapage_version):
     assert unexpected(view) == []
 
 
-@pytest.mark.xfail(strict=True, reason="fastparquet's _common_metadata keeps FileMetaData.num_rows of the dataset "
-                                       "although it has no row groups (num_rows != sum of row group rows)")
+# (was a strict xfail until /repo commit 8137a73 made _common_metadata state zero rows)
 def test_fastparquet_common_metadata_rows(scratch):
     d = os.path.join(scratch, "ds")
     fastparquet.write(d, pd.DataFrame({"a": [1, 2, 3]}), file_scheme="hive")
